@@ -97,8 +97,6 @@ kmul!(c03_k8k_kmul_5_5w, 5, 5, shaped(1), shaped(1));
 kmul!(c03_k8k_kmul_5_7, 5, 7, shaped(1), shaped(1));
 //@ name=c03_k8k_kmul_5_7q prop=C03,C15 tier=quick profile=k8k funcs="karatsuba_mul_limbs (lhs shorter, both trailing),adc_mul_limbs (accumulating)" bound="u8 words, thresholds (2,1): 5x7 limbs, lhs limbs S(1), rhs = [u,u,u,v,w,w,w] with u,v,w S(1)" free_bits=16
 kmul!(c03_k8k_kmul_5_7q, 5, 7, shaped(1), { let t: Uint<3> = shaped(1); let l = t.as_limbs(); Uint::new([l[0], l[0], l[0], l[1], l[2], l[2], l[2]]) });
-//@ name=c03_k8k_kmul_6_6 prop=C03,C15 tier=thorough profile=k8k funcs="karatsuba_mul_limbs (half = 3: inner call with trailing limb)" bound="u8 words, thresholds (2,1): 6x6 limbs, lhs limbs S(1), rhs = [u,v,w,u,v,w] with u,v,w S(1)" free_bits=18
-kmul!(c03_k8k_kmul_6_6, 6, 6, shaped(1), { let t: Uint<3> = shaped(1); let l = t.as_limbs(); Uint::new([l[0], l[1], l[2], l[0], l[1], l[2]]) });
 
 //@ name=c03_k8k_boxed_mul_3_3 prop=C03,C15,C11 tier=quick profile=k8k funcs="BoxedUint::mul (Karatsuba dispatch),karatsuba_mul_limbs" bound="u8 words, thresholds (2,1): boxed 3x3 limbs, every limb S(1)" free_bits=12
 kmul_boxed!(c03_k8k_boxed_mul_3_3, 3, 3, shaped(1), shaped(1));
